@@ -421,6 +421,7 @@ package proxy
 //@ ghost optionsParsed int
 //@ ghostfn createdAt
 //@ func (*staticUpstream).NewHost
+//@   modifies Transport.TLSClientConfig, RoundTripper.TLSClientConfig, Config.Certificates, E:crypto/tls.Certificate, Config.InsecureSkipVerify, Config.RootCAs
 //@   requires u != nil
 //@   ensures result1 == nil ==> result0 != nil
 //@ extern (net/http.Header).Get
@@ -430,7 +431,7 @@ package proxy
 //@   requires upstream != nil && upstream.HealthCheck.Interval > 0
 //@   requires upstream.resolver != nil && forall(k, 0, len(upstream.Hosts), upstream.Hosts[k] != nil)
 //@ func NewStaticUpstreams
-//@   modifies staticUpstream, Client.CheckRedirect, Client.Jar, Client.Timeout, Client.Transport, Dispenser.cursor, Dispenser.nesting, E:*github.com/tmpim/casket/caskethttp/proxy.UpstreamHost, E:github.com/tmpim/casket/caskethttp/proxy.headerReplacement, MD:map[string][]github.com/tmpim/casket/caskethttp/proxy.headerReplacement, MV:map[string][]github.com/tmpim/casket/caskethttp/proxy.headerReplacement, Uint64._, Uint64.v, WaitGroup.noCopy, WaitGroup.sema, WaitGroup.state, ghost:createdAt, ghost:optionsParsed, staticUpstream.CaCertPool, staticUpstream.ClientKeyPair, staticUpstream.FailTimeout, staticUpstream.FallbackDelay, staticUpstream.HealthCheck, staticUpstream.Hosts, staticUpstream.IgnoredSubPaths, staticUpstream.KeepAlive, staticUpstream.MaxConns, staticUpstream.MaxFails, staticUpstream.Policy, staticUpstream.Timeout, staticUpstream.TryDuration, staticUpstream.TryInterval, staticUpstream.WithoutPathPrefix, staticUpstream.downstreamHeaderReplacements, staticUpstream.downstreamHeaders, staticUpstream.from, staticUpstream.insecureSkipVerify, staticUpstream.resolver, staticUpstream.stop, staticUpstream.upstreamHeaderReplacements, staticUpstream.upstreamHeaders, staticUpstream.wg
+//@   modifies staticUpstream, Client.CheckRedirect, Client.Jar, Client.Timeout, Client.Transport, Dispenser.cursor, Dispenser.nesting, E:*github.com/tmpim/casket/caskethttp/proxy.UpstreamHost, E:github.com/tmpim/casket/caskethttp/proxy.headerReplacement, MD:map[string][]github.com/tmpim/casket/caskethttp/proxy.headerReplacement, MV:map[string][]github.com/tmpim/casket/caskethttp/proxy.headerReplacement, Uint64._, Uint64.v, WaitGroup.noCopy, WaitGroup.sema, WaitGroup.state, ghost:createdAt, ghost:optionsParsed, staticUpstream.CaCertPool, staticUpstream.ClientKeyPair, staticUpstream.FailTimeout, staticUpstream.FallbackDelay, staticUpstream.HealthCheck, staticUpstream.Hosts, staticUpstream.IgnoredSubPaths, staticUpstream.KeepAlive, staticUpstream.MaxConns, staticUpstream.MaxFails, staticUpstream.Policy, staticUpstream.Timeout, staticUpstream.TryDuration, staticUpstream.TryInterval, staticUpstream.WithoutPathPrefix, staticUpstream.downstreamHeaderReplacements, staticUpstream.downstreamHeaders, staticUpstream.from, staticUpstream.insecureSkipVerify, staticUpstream.resolver, staticUpstream.stop, staticUpstream.upstreamHeaderReplacements, staticUpstream.upstreamHeaders, staticUpstream.wg, Transport.TLSClientConfig, RoundTripper.TLSClientConfig, Config.Certificates, E:crypto/tls.Certificate, Config.InsecureSkipVerify, Config.RootCAs
 //@   requires optionsParsed == 0
 //@   at call parseBlock do optionsParsed = optionsParsed + 1
 //@   at call (*staticUpstream).NewHost do createdAt(result0) = optionsParsed
@@ -729,7 +730,7 @@ package proxy
 //@ ghost registered int
 //@ ghost shutdownRegs int
 //@ func NewStaticUpstreams
-//@   modifies ghost:built, Dispenser.cursor, Dispenser.nesting, WaitGroup.noCopy, WaitGroup.sema, WaitGroup.state, staticUpstream, Client.CheckRedirect, Client.Jar, Client.Timeout, Client.Transport, E:*github.com/tmpim/casket/caskethttp/proxy.UpstreamHost, E:github.com/tmpim/casket/caskethttp/proxy.headerReplacement, MD:map[string][]github.com/tmpim/casket/caskethttp/proxy.headerReplacement, MV:map[string][]github.com/tmpim/casket/caskethttp/proxy.headerReplacement, Uint64._, Uint64.v, staticUpstream.CaCertPool, staticUpstream.ClientKeyPair, staticUpstream.FailTimeout, staticUpstream.FallbackDelay, staticUpstream.HealthCheck, staticUpstream.Hosts, staticUpstream.IgnoredSubPaths, staticUpstream.KeepAlive, staticUpstream.MaxConns, staticUpstream.MaxFails, staticUpstream.Policy, staticUpstream.Timeout, staticUpstream.TryDuration, staticUpstream.TryInterval, staticUpstream.WithoutPathPrefix, staticUpstream.downstreamHeaderReplacements, staticUpstream.downstreamHeaders, staticUpstream.from, staticUpstream.insecureSkipVerify, staticUpstream.resolver, staticUpstream.stop, staticUpstream.upstreamHeaderReplacements, staticUpstream.upstreamHeaders, staticUpstream.wg
+//@   modifies ghost:built, Dispenser.cursor, Dispenser.nesting, WaitGroup.noCopy, WaitGroup.sema, WaitGroup.state, staticUpstream, Client.CheckRedirect, Client.Jar, Client.Timeout, Client.Transport, E:*github.com/tmpim/casket/caskethttp/proxy.UpstreamHost, E:github.com/tmpim/casket/caskethttp/proxy.headerReplacement, MD:map[string][]github.com/tmpim/casket/caskethttp/proxy.headerReplacement, MV:map[string][]github.com/tmpim/casket/caskethttp/proxy.headerReplacement, Uint64._, Uint64.v, staticUpstream.CaCertPool, staticUpstream.ClientKeyPair, staticUpstream.FailTimeout, staticUpstream.FallbackDelay, staticUpstream.HealthCheck, staticUpstream.Hosts, staticUpstream.IgnoredSubPaths, staticUpstream.KeepAlive, staticUpstream.MaxConns, staticUpstream.MaxFails, staticUpstream.Policy, staticUpstream.Timeout, staticUpstream.TryDuration, staticUpstream.TryInterval, staticUpstream.WithoutPathPrefix, staticUpstream.downstreamHeaderReplacements, staticUpstream.downstreamHeaders, staticUpstream.from, staticUpstream.insecureSkipVerify, staticUpstream.resolver, staticUpstream.stop, staticUpstream.upstreamHeaderReplacements, staticUpstream.upstreamHeaders, staticUpstream.wg, Transport.TLSClientConfig, RoundTripper.TLSClientConfig, Config.Certificates, E:crypto/tls.Certificate, Config.InsecureSkipVerify, Config.RootCAs
 //@   ensures built == old(built) + 1
 //@   ensures result1 == nil ==> forall(k, 0, len(result0), result0[k] != nil)
 //@ extern (github.com/tmpim/casket/caskethttp/httpserver.SiteConfig).Host
@@ -741,7 +742,7 @@ package proxy
 //@   ensures shutdownRegs == old(shutdownRegs) + 1
 //@ func setup
 //@   requires c != nil && built == 0 && registered == 0 && shutdownRegs == 0
-//@   modifies ghost:built, ghost:registered, ghost:shutdownRegs, Dispenser.cursor, Dispenser.nesting, WaitGroup.noCopy, WaitGroup.sema, WaitGroup.state, staticUpstream, Client.CheckRedirect, Client.Jar, Client.Timeout, Client.Transport, E:*github.com/tmpim/casket/caskethttp/proxy.UpstreamHost, E:github.com/tmpim/casket/caskethttp/proxy.headerReplacement, MD:map[string][]github.com/tmpim/casket/caskethttp/proxy.headerReplacement, MV:map[string][]github.com/tmpim/casket/caskethttp/proxy.headerReplacement, Uint64._, Uint64.v, staticUpstream.CaCertPool, staticUpstream.ClientKeyPair, staticUpstream.FailTimeout, staticUpstream.FallbackDelay, staticUpstream.HealthCheck, staticUpstream.Hosts, staticUpstream.IgnoredSubPaths, staticUpstream.KeepAlive, staticUpstream.MaxConns, staticUpstream.MaxFails, staticUpstream.Policy, staticUpstream.Timeout, staticUpstream.TryDuration, staticUpstream.TryInterval, staticUpstream.WithoutPathPrefix, staticUpstream.downstreamHeaderReplacements, staticUpstream.downstreamHeaders, staticUpstream.from, staticUpstream.insecureSkipVerify, staticUpstream.resolver, staticUpstream.stop, staticUpstream.upstreamHeaderReplacements, staticUpstream.upstreamHeaders, staticUpstream.wg
+//@   modifies ghost:built, ghost:registered, ghost:shutdownRegs, Dispenser.cursor, Dispenser.nesting, WaitGroup.noCopy, WaitGroup.sema, WaitGroup.state, staticUpstream, Client.CheckRedirect, Client.Jar, Client.Timeout, Client.Transport, E:*github.com/tmpim/casket/caskethttp/proxy.UpstreamHost, E:github.com/tmpim/casket/caskethttp/proxy.headerReplacement, MD:map[string][]github.com/tmpim/casket/caskethttp/proxy.headerReplacement, MV:map[string][]github.com/tmpim/casket/caskethttp/proxy.headerReplacement, Uint64._, Uint64.v, staticUpstream.CaCertPool, staticUpstream.ClientKeyPair, staticUpstream.FailTimeout, staticUpstream.FallbackDelay, staticUpstream.HealthCheck, staticUpstream.Hosts, staticUpstream.IgnoredSubPaths, staticUpstream.KeepAlive, staticUpstream.MaxConns, staticUpstream.MaxFails, staticUpstream.Policy, staticUpstream.Timeout, staticUpstream.TryDuration, staticUpstream.TryInterval, staticUpstream.WithoutPathPrefix, staticUpstream.downstreamHeaderReplacements, staticUpstream.downstreamHeaders, staticUpstream.from, staticUpstream.insecureSkipVerify, staticUpstream.resolver, staticUpstream.stop, staticUpstream.upstreamHeaderReplacements, staticUpstream.upstreamHeaders, staticUpstream.wg, Transport.TLSClientConfig, RoundTripper.TLSClientConfig, Config.Certificates, E:crypto/tls.Certificate, Config.InsecureSkipVerify, Config.RootCAs
 //@   at call (*github.com/tmpim/casket/caskethttp/httpserver.SiteConfig).AddMiddleware before [registered_after_this_runs_own_parse] built == 1
 //@   ensures [one_handler_and_one_shutdown_callback_per_upstream] built == 1 && (result == nil ==> (registered == 1 && shutdownRegs == len(upstreams))) && (result != nil ==> (registered == 0 && shutdownRegs == 0))
 //@   loop 1 invariant 0 <= #i && #i <= len(upstreams) && shutdownRegs == #i && registered == 1 && built == 1
